@@ -46,7 +46,11 @@ func runC15(r *Report) {
 		}
 		return false
 	}
-	for _, cs := range calls {
+	// acquirers: tryLock, and private wrappers that return true exactly when they return with the flag held
+	// (func (t *base) acquire() bool { if !t.tryLock() { return false }; if !t.ready() { t.unlock(); return false }; return true })
+	acquirers := map[*ssa.Function]bool{tryLock: true}
+	for i := 0; i < len(calls); i++ {
+		cs := calls[i]
 		c, ok := cs.(*ssa.Call)
 		if !ok {
 			continue
@@ -55,6 +59,49 @@ func runC15(r *Report) {
 		r.Fn(f)
 		key := fmt.Sprintf("%s/tryLock-then-unlock", fname(f))
 		exits := unreportedExits(mustCfg{c, isRelease, []excuse{{c, false}}})
+		if len(exits) > 0 && relPkg(f) == "tracker" && f.Parent() == nil && f.Signature.Results().Len() == 1 && isBoolType(f.Signature.Results().At(0).Type()) {
+			if obj, isF := f.Object().(*types.Func); isF && !obj.Exported() {
+				allTrue := true
+				for _, e := range exits {
+					ret, isRet := e.(*ssa.Return)
+					if !isRet {
+						allTrue = false
+						break
+					}
+					if b, isb := constBool(ret.Results[0]); !isb || !b {
+						allTrue = false
+					}
+				}
+				// and no return of true without the flag
+				if allTrue {
+					for _, ret := range returnsOf(f) {
+						if b, isb := constBool(ret.Results[0]); isb && !b {
+							continue
+						}
+						held := false
+						for _, g := range guardsOf(ret.Block()) {
+							g = g.norm()
+							if gc, okc := g.Cond.(*ssa.Call); okc && acquirers[gc.Call.StaticCallee()] && g.Pol {
+								held = true
+							}
+						}
+						if !held {
+							allTrue = false
+						}
+					}
+				}
+				if allTrue && !acquirers[f] {
+					acquirers[f] = true
+					r.Ok("R1", key, c.Pos(), "the wrapper returns true exactly when it returns with the busy flag held; its callers are checked in its place")
+					more, esc2 := p.callSitesOf(f)
+					for _, e := range esc2 {
+						r.Fail("R1", "tryLock-escapes", e.Pos(), "%s is used as a function value", fname(f))
+					}
+					calls = append(calls, more...)
+					continue
+				}
+			}
+		}
 		if len(exits) == 0 {
 			r.Ok("R1", key, c.Pos(), "every path on which the busy flag was taken releases it (deferred or explicit unlock)")
 		} else {
@@ -106,15 +153,17 @@ func runC15(r *Report) {
 		}
 		for _, in := range sites {
 			key := fmt.Sprintf("%s/contact-after-ready", fname(f))
-			// dominated by ready() == true
+			// dominated by ready() == true (in the function, or as the outcome of an acquiring wrapper)
 			var rc *ssa.Call
-			for _, g := range guardsOf(in.Block()) {
-				g = g.norm()
-				if c, ok := g.Cond.(*ssa.Call); ok && c.Call.StaticCallee() == ready && g.Pol {
+			isReadyTrue := func(g Guard) bool {
+				c, ok := g.Cond.(*ssa.Call)
+				if ok && c.Call.StaticCallee() == ready && g.Pol {
 					rc = c
+					return true
 				}
+				return false
 			}
-			if rc == nil {
+			if !p.factHolds(in, isReadyTrue, 0) || rc == nil {
 				r.Fail("R2", key, in.Pos(), "the tracker is contacted on a path not dominated by ready() == true: it can be contacted again before max(5 min, announced interval) has elapsed")
 				continue
 			}
